@@ -133,21 +133,12 @@ V_ENSURES(!__CPROVER_return_value || PREFACE_DONE(zck)) /*@C03,C13.read_preface.
 V_ENSURES(!__CPROVER_return_value || zck->comp.started != 0) /*@C03.read_preface.decoder_started*/
 ;
 
-/* index_read (src/lib/index/index_read.c) as its caller sees it.  data[0..max_length) must be
- * readable: this requires-clause at read_index's call site is the C03 obligation. */
-bool index_read(zckCtx *zck, char *data, size_t size, size_t max_length)
-V_REQUIRES(__CPROVER_rw_ok(zck, sizeof(*zck)))
-V_REQUIRES(size <= max_length && __CPROVER_r_ok(data, max_length))
-V_ASSIGNS(zck->index, zck->chunk_hash_type, zck->index_string, zck->error_state)
-V_FREES(zck->index_string)
-V_ENSURES(!__CPROVER_return_value || (zck->index.first != NULL && zck->index.count >= 1)) /*@C03,C13.index_read.at_least_the_dictionary_entry*/
-V_ENSURES(!__CPROVER_return_value || zck->index_string == NULL) /*@C03.index_read.index_string_cleared*/
-;
+#include "contracts/index_read.h"
 
 static bool read_index(zckCtx *zck)
 V_REQUIRES(__CPROVER_rw_ok(zck, sizeof(*zck)))
 V_REQUIRES(HDR_LOADED(zck) && PREFACE_DONE(zck))
-V_REQUIRES(zck->index_string == NULL)
+V_REQUIRES(zck->index_string == NULL && zck->index.first == NULL)
 V_ASSIGNS(zck->index, zck->chunk_hash_type, zck->index_string, zck->error_state)
 V_ENSURES(!__CPROVER_return_value || INDEX_DONE(zck)) /*@C03,C13.read_index.index_lies_inside_header*/
 V_ENSURES(!__CPROVER_return_value || (zck->index.first != NULL && zck->index.count >= 1)) /*@C03,C13.read_index.at_least_the_dictionary_entry*/
